@@ -39,6 +39,8 @@ type Stats struct {
 	MsgSnapSent, Delivered, Drops int
 	StaleLeaderSteps              int // steps taken by a leader whose term is below the max term
 	EmptyRestarts                 int // bootstrap members restarted from an empty storage
+	VoteGrantsSent, AcksSent      int // messages checked by the durable-vote / durable-ack rules
+	CommitQuorumChecks            int // leader commit advances checked against the voters' durable logs
 }
 
 type nodeTrack struct {
@@ -67,6 +69,7 @@ type Oracle struct {
 	terms        map[uint64]bool
 	msgType      map[int]int
 	pending      map[uint64]*ReadyProj // Ready returned by StepNode, not yet published to the application
+	granted      map[[2]uint64]uint64  // (node, term) -> candidate it sent a granting MsgVoteResp to
 	bootMember   map[uint64]bool       // alive in record 0: bootstrapped with the full peer list
 	emptyRestart map[uint64]bool       // such a node restarted from a completely empty storage
 	tainted      string
@@ -74,7 +77,7 @@ type Oracle struct {
 
 func NewOracle() *Oracle {
 	return &Oracle{nodes: map[uint64]*nodeTrack{}, leaderOf: map[uint64]uint64{}, chosen: map[uint64]EntProj{},
-		chosenAt: map[uint64]int{}, msgType: map[int]int{}, pending: map[uint64]*ReadyProj{}, bootMember: map[uint64]bool{}, emptyRestart: map[uint64]bool{}, snapTerm: map[uint64]uint64{}, applied: map[uint64]EntProj{}, terms: map[uint64]bool{},
+		chosenAt: map[uint64]int{}, msgType: map[int]int{}, pending: map[uint64]*ReadyProj{}, granted: map[[2]uint64]uint64{}, bootMember: map[uint64]bool{}, emptyRestart: map[uint64]bool{}, snapTerm: map[uint64]uint64{}, applied: map[uint64]EntProj{}, terms: map[uint64]bool{},
 		S: Stats{CrashStage: map[string]int{}}}
 }
 
@@ -168,11 +171,9 @@ func (o *Oracle) Feed(rec *Record) {
 	seq := rec.S
 	ev := rec.Ev
 	if rec.Panic != "" {
-		prop := "C02"
-		if ev.K == "restart" {
-			prop = "C03"
-		}
-		o.viol(prop, "panic", seq, "Go panic during %s at node %d: %s", ev.K, ev.N, rec.Panic)
+		// a panicking replica applies nothing any more (C02) and has not survived (C03)
+		o.viol("C02", "panic", seq, "Go panic during %s at node %d: %s", ev.K, ev.N, rec.Panic)
+		o.viol("C03", "panic", seq, "Go panic during %s at node %d: %s", ev.K, ev.N, rec.Panic)
 	}
 	var pre NodeState
 	havePre := false
@@ -216,6 +217,31 @@ func (o *Oracle) Feed(rec *Record) {
 	for _, m := range rec.Add {
 		if m.Msg.Type == 7 {
 			o.S.MsgSnapSent++
+		}
+		// what leaves a node must be backed by what it has persisted (checked at the moment of sending)
+		if m.Msg.Type == 6 && !m.Msg.Reject {
+			o.S.VoteGrantsSent++
+			k := [2]uint64{m.Msg.From, m.Msg.Term}
+			if c, ok := o.granted[k]; ok && c != m.Msg.To {
+				o.viol("C01", "double-vote", seq, "node %d grants its term-%d vote to %d after granting it to %d", m.Msg.From, m.Msg.Term, m.Msg.To, c)
+			}
+			o.granted[k] = m.Msg.To
+			if d := rec.SD; d != nil && !(d.Term > m.Msg.Term || (d.Term == m.Msg.Term && d.Vote == m.Msg.To)) {
+				o.viol("C01", "vote-not-durable", seq, "node %d sends a granting MsgVoteResp(term %d) to %d while its persisted hard state is term %d vote %d",
+					m.Msg.From, m.Msg.Term, m.Msg.To, d.Term, d.Vote)
+				o.viol("C03", "vote-not-durable", seq, "node %d sends a granting MsgVoteResp(term %d) to %d while its persisted hard state is term %d vote %d",
+					m.Msg.From, m.Msg.Term, m.Msg.To, d.Term, d.Vote)
+			}
+		}
+		if m.Msg.Type == 4 && !m.Msg.Reject {
+			o.S.AcksSent++
+			if d := rec.SD; d != nil && m.Msg.Index > d.Last && m.Msg.Index > d.SI {
+				o.viol("C03", "ack-not-durable", seq, "node %d acknowledges index %d (term %d) to %d while its persisted log ends at %d (snapshot %d)",
+					m.Msg.From, m.Msg.Index, m.Msg.Term, m.Msg.To, d.Last, d.SI)
+			}
+			if d := rec.SD; d != nil && d.Term < m.Msg.Term {
+				o.viol("C03", "ack-term-not-durable", seq, "node %d acknowledges in term %d while its persisted term is %d", m.Msg.From, m.Msg.Term, d.Term)
+			}
 		}
 	}
 
@@ -398,6 +424,41 @@ func (o *Oracle) Feed(rec *Record) {
 			}
 		} else {
 			t.wasLeaderAt = 0
+		}
+		// a leader advances its commit index only to an entry that a majority of its voters hold durably
+		if s.Role == 2 && hadPrev && prev.Alive && prev.Role == 2 && prev.Term == s.Term && s.Commit > prev.Commit && len(s.Log) > 0 {
+			c := s.Commit
+			k := int(c) - int(s.Log[0].I)
+			if k >= 0 && k < len(s.Log) && s.Log[k].I == c {
+				te := s.Log[k].T
+				have := 0
+				for _, v := range s.Voters {
+					if v == s.ID {
+						have++
+						continue
+					}
+					vt := o.nodes[v]
+					if vt == nil || !vt.have || vt.last.Disk == nil {
+						continue
+					}
+					d := vt.last.Disk
+					if d.SI > c || (d.SI == c && d.ST == te) {
+						have++
+						continue
+					}
+					if len(d.Log) > 0 {
+						j := int(c) - int(d.Log[0].I)
+						if j >= 0 && j < len(d.Log) && d.Log[j].I == c && d.Log[j].T == te {
+							have++
+						}
+					}
+				}
+				o.S.CommitQuorumChecks++
+				if have < len(s.Voters)/2+1 {
+					o.viol("C02", "commit-without-quorum", seq, "leader %d (term %d) commits index %d (entry term %d) held durably by %d of its %d voters", s.ID, s.Term, c, te, have, len(s.Voters))
+					o.viol("C03", "commit-without-quorum", seq, "leader %d (term %d) commits index %d (entry term %d) held durably by %d of its %d voters", s.ID, s.Term, c, te, have, len(s.Voters))
+				}
+			}
 		}
 		// applied <= committed <= last, and the log below commit agrees with what was chosen
 		if s.Applied > s.Commit || s.Commit > s.Last {
